@@ -266,6 +266,16 @@ pub fn write_ink_list(list: &InkList) -> serde_json::Value {
 
     jobj.insert("list".to_owned(), serde_json::Value::Object(jlist));
 
+    // An empty list has no items to tell which lists it belongs to. Like the
+    // reference runtime, keep the origin names so that LIST_ALL, LIST_INVERT,
+    // etc. still work on it after a load.
+    if list.items.is_empty() {
+        let origin_names = list.get_origin_names();
+        if !origin_names.is_empty() {
+            jobj.insert("origins".to_owned(), json!(origin_names));
+        }
+    }
+
     serde_json::Value::Object(jobj)
 }
 
